@@ -50,6 +50,10 @@ func (e *FirstExpr) Evaluate(engine *Engine, input interface{}, args []*Statemen
 		return nil, err
 	}
 
+	if max < 0 {
+		return nil, fmt.Errorf("function First() cannot take %d items", max)
+	}
+
 	if len := in.Len(); max >= len {
 		max = len
 	}
